@@ -1721,15 +1721,44 @@ static void emit_text(Obj *prog) {
 
     // Save arg registers if function is variadic
     if (fn->va_area) {
-      int gp = 0, fp = 0;
+      // Count the registers the named parameters arrived in, one per
+      // eightbyte, and find the end of the named parameters that were
+      // passed in memory (assign_lvar_offsets gave those a positive
+      // offset).
+      int gp = 0, fp = 0, top = 16;
       for (Obj *var = fn->params; var; var = var->next) {
-        // An empty aggregate takes no register.
-        if (var->ty->size == 0)
+        Type *ty = var->ty;
+
+        // An empty aggregate takes neither a register nor memory.
+        if (ty->size == 0)
           continue;
-        if (is_flonum(var->ty))
+
+        if (var->offset > 0) {
+          top = MAX(top, align_to(var->offset + ty->size, 8));
+          continue;
+        }
+
+        switch (ty->kind) {
+        case TY_STRUCT:
+        case TY_UNION:
+          if (has_flonum1(ty))
+            fp++;
+          else
+            gp++;
+          if (ty->size > 8) {
+            if (has_flonum2(ty))
+              fp++;
+            else
+              gp++;
+          }
+          break;
+        case TY_FLOAT:
+        case TY_DOUBLE:
           fp++;
-        else
+          break;
+        default:
           gp++;
+        }
       }
 
       int off = fn->va_area->offset;
@@ -1738,7 +1767,7 @@ static void emit_text(Obj *prog) {
       println("  movl $%d, %d(%%rbp)", gp * 8, off);          // gp_offset
       println("  movl $%d, %d(%%rbp)", fp * 16 + 48, off + 4); // fp_offset
       println("  movq %%rbp, %d(%%rbp)", off + 8);            // overflow_arg_area
-      println("  addq $16, %d(%%rbp)", off + 8);
+      println("  addq $%d, %d(%%rbp)", top, off + 8);
       println("  movq %%rbp, %d(%%rbp)", off + 16);           // reg_save_area
       println("  addq $%d, %d(%%rbp)", off + 24, off + 16);
 
